@@ -3,7 +3,6 @@ package main
 import (
 	"fmt"
 	"go/token"
-	"strings"
 
 	"golang.org/x/tools/go/ssa"
 )
@@ -22,122 +21,6 @@ func init() {
 
 const dateDomLo, dateDomHi = -62135596800000, 253402300799999
 
-func (w *World) dateEncoderForms(r *Report, ruleExact, ruleWin, ruleZero string, specUnit bool, ruleSpec string) {
-	c := w.codecs()["date"]
-	if c == nil || c.Enc == nil {
-		r.undecided(ruleWin, "date encoder", "-", "not found")
-		return
-	}
-	fn := c.Enc
-	r.fnSeen(fnName(fn))
-	f := w.flow(fn)
-	pd := f.term(fn.Params[0]).Key()
-	n := 0
-	for _, fm := range w.litForms(fn) {
-		if fm.IsErr || len(fm.Octets) == 0 {
-			continue
-		}
-		k, isC := fm.Octets[0].(*ssa.Const)
-		if !isC {
-			r.add(ruleWin, fmt.Sprintf("%s · form at block %d", fnName(fn), fm.Block.Index), fm.Pos, false, "first octet is not a constant tag")
-			continue
-		}
-		n++
-		tag := int(k.Int64())
-		key := fmt.Sprintf("%s · form x%02x", fnName(fn), tag)
-		env := f.At(fm.Block)
-		switch tag {
-		case 'N':
-			if ruleZero == "" {
-				continue
-			}
-			// guarded by IsZero()
-			ok := false
-			for _, b := range fn.Blocks {
-				if iff, isIf := b.Instrs[len(b.Instrs)-1].(*ssa.If); isIf {
-					if f.term(iff.Cond).Key() == "pure:(time.Time).IsZero("+pd+")" && b.Succs[0].Dominates(fm.Block) {
-						ok = true
-					}
-				}
-			}
-			r.add(ruleZero, key, fm.Pos, ok && len(fm.Octets) == 1, "the null form is emitted exactly under date.IsZero()")
-		case 0x4a, 0x4b:
-			sf := specByTag[tag]
-			if len(fm.Octets) != sf.Payload+1 {
-				r.add(ruleWin, key, fm.Pos, false, fmt.Sprintf("form has %d octets, spec %d", len(fm.Octets), sf.Payload+1))
-				continue
-			}
-			ok := true
-			var baseKey string
-			var base *Term
-			for i := 1; i < len(fm.Octets); i++ {
-				b, sh, wok := f.octetWindow(fm.Octets[i])
-				if !wok || sh != 8*(len(fm.Octets)-1-i) || (baseKey != "" && b.Key() != baseKey) {
-					ok = false
-					break
-				}
-				baseKey, base = b.Key(), b
-			}
-			if !ok {
-				r.add(ruleWin, key, fm.Pos, false, "payload octets are not the big-endian windows of one value")
-				continue
-			}
-			V, _ := f.Eval(base, env)
-			fits := V != nil && V.SubsetOf(bitsRange(uint(8*sf.Payload)))
-			inner := base
-			for inner.K == TConv {
-				inner = inner.A
-			}
-			unit := ""
-			switch {
-			case inner.Key() == "pure:(time.Time).UnixMilli("+pd+")", inner.Key() == "(pure:(time.Time).UnixNano("+pd+") / 1000000)":
-				unit = "milliseconds"
-			case inner.Key() == "pure:(time.Time).Unix("+pd+")":
-				unit = "seconds"
-			case inner.Key() == "(pure:(time.Time).Unix("+pd+") / 60)":
-				unit = "minutes"
-			}
-			fact := fmt.Sprintf("%d octets of %s ∈ %s (unit: %s)", sf.Payload, base.Key(), V, unit)
-			okWin := fits && unit != ""
-			if tag == 0x4a && unit != "milliseconds" {
-				okWin = false
-				fact += "; the 8-octet form must carry the millisecond instant"
-			}
-			if !fits {
-				fact += fmt.Sprintf("; the value is not proven to fit %d bits: high bits are silently dropped", 8*sf.Payload)
-			}
-			r.add(ruleWin, key, fm.Pos, okWin, fact)
-			if tag == 0x4b {
-				// exactness: sub-unit remainder is {0}
-				exact := false
-				var seen []string
-				for _, cand := range []string{"pure:(time.Time).Nanosecond(" + pd + ")", "(pure:(time.Time).UnixNano(" + pd + ") % 1000000000)", "(pure:(time.Time).UnixMilli(" + pd + ") % 1000)"} {
-					if s, has := env[cand]; has {
-						seen = append(seen, cand+" ∈ "+s.String())
-						if s.Equal(single(0)) {
-							exact = true
-						}
-					}
-				}
-				fe := "sub-second part proven {0} on every path to the compact form: " + strings.Join(seen, ", ")
-				if !exact {
-					fe = "the compact form is reachable with a non-zero sub-second part (" + strings.Join(seen, ", ") + "): the fraction is lost"
-					if len(seen) == 0 {
-						fe = "no guard constrains the sub-second part before the compact form"
-					}
-				}
-				r.add(ruleExact, key, fm.Pos, exact, fe)
-				if specUnit {
-					r.add(ruleSpec, key+" · unit", fm.Pos, unit == "minutes", "x4b carries "+unit+"; the grammar defines x4b as a 32-bit count of MINUTES since the epoch")
-				}
-			}
-		default:
-			r.add(ruleWin, key, fm.Pos, false, fmt.Sprintf("tag x%02x is not a date form", tag))
-		}
-	}
-	r.floor(ruleWin+" (date forms)", n, 3)
-}
-
 func rulesC10(w *World, r *Report) {
 	w.dateEncoderForms(r, "C10.R1 compact form only when exact", "C10.R2 octet windows fit the value", "C10.R4 zero time is null", false, "")
 	w.ruleDecoderForms(r, "C10.R2 reader accepts both date forms", "date")
@@ -146,82 +29,6 @@ func rulesC10(w *World, r *Report) {
 	w.ruleDateUnits(r, "C10.R2 encoder getter and decoder constructor agree on the unit")
 	w.ruleDateArith(r, "C10.R3 no overflow on the declared domain")
 	w.ruleDateStructPath(r, "C10.R5 time.Time recognised inside the struct path")
-}
-
-// ruleDateUnits: x4a ↔ time.UnixMilli, x4b ↔ time.Unix(s, 0) (or the minutes pair).
-func (w *World) ruleDateUnits(r *Report, rule string) {
-	c := w.codecs()["date"]
-	if c == nil || c.Dec == nil || c.Enc == nil {
-		r.undecided(rule, "date codec", "-", "not found")
-		return
-	}
-	fd := w.flow(c.Dec)
-	forms, err := w.decForms(c.Dec, fd)
-	if err != nil {
-		r.undecided(rule, fnName(c.Dec), "-", err.Error())
-		return
-	}
-	encUnit := map[int]string{}
-	fe := w.flow(c.Enc)
-	pd := fe.term(c.Enc.Params[0]).Key()
-	for _, fm := range w.litForms(c.Enc) {
-		if len(fm.Octets) < 2 {
-			continue
-		}
-		k, isC := fm.Octets[0].(*ssa.Const)
-		if !isC {
-			continue
-		}
-		b, _, ok := fe.octetWindow(fm.Octets[len(fm.Octets)-1])
-		if !ok {
-			continue
-		}
-		for b.K == TConv {
-			b = b.A
-		}
-		switch b.Key() {
-		case "pure:(time.Time).UnixMilli(" + pd + ")", "(pure:(time.Time).UnixNano(" + pd + ") / 1000000)":
-			encUnit[int(k.Int64())] = "milliseconds"
-		case "pure:(time.Time).Unix(" + pd + ")":
-			encUnit[int(k.Int64())] = "seconds"
-		case "(pure:(time.Time).Unix(" + pd + ") / 60)":
-			encUnit[int(k.Int64())] = "minutes"
-		}
-	}
-	n := 0
-	for _, df := range forms {
-		if df.IsErr {
-			continue
-		}
-		tags, _ := df.Tags.Elems(4)
-		ret := df.Block.Instrs[len(df.Block.Instrs)-1].(*ssa.Return)
-		call, ok := ret.Results[0].(*ssa.Call)
-		unit := "?"
-		if ok && call.Call.StaticCallee() != nil {
-			switch qualifiedFnName(call.Call.StaticCallee()) {
-			case "time.UnixMilli":
-				unit = "milliseconds"
-			case "time.Unix":
-				if k, isC := call.Call.Args[1].(*ssa.Const); isC && k.Int64() == 0 {
-					unit = "seconds"
-					if t := fd.term(call.Call.Args[0]); t.K == TBin && t.Op == token.MUL {
-						unit = "seconds×k"
-						if t.B.K == TConst && t.B.C.Int64() == 60 {
-							unit = "minutes"
-						}
-					}
-				} else if k, isC := call.Call.Args[0].(*ssa.Const); isC && k.Int64() == 0 {
-					unit = "nanoseconds-scaled"
-				}
-			}
-		}
-		for _, t := range tags {
-			n++
-			eu := encUnit[int(t)]
-			r.add(rule, fmt.Sprintf("date form x%02x", t), df.Pos, eu != "" && eu == unit, fmt.Sprintf("encoder writes %s, decoder rebuilds the time from %s", eu, unit))
-		}
-	}
-	r.floor(rule, n, 2)
 }
 
 // ruleDateArith: arithmetic on the wire value in decodeDateValue, partial
